@@ -240,6 +240,13 @@ func (ch *channel) addInitDataAndUpdateTimescale(stream stream, init *mp4.InitSe
 			}
 		}
 	}
+	for _, asSet := range p.AdaptationSets {
+		for _, rep := range asSet.Representations {
+			if rep.Id == stream.trName { // init segment sent again: the track is already described
+				return nil
+			}
+		}
+	}
 	rep := m.NewRepresentation()
 	rep.Id = stream.trName
 	currAsSet.AppendRepresentation(rep)
@@ -406,9 +413,11 @@ func (ch *channel) addTrDataLocked(rd *trData) {
 	if firstVideoTrack {
 		ch.masterTrName = rd.name
 	}
+	if _, ok := ch.trDatas[rd.name]; !ok {
+		ch.trIDs = append(ch.trIDs, rd.name)
+		sort.Strings(ch.trIDs)
+	}
 	ch.trDatas[rd.name] = rd
-	ch.trIDs = append(ch.trIDs, rd.name)
-	sort.Strings(ch.trIDs)
 }
 
 func extractVideoData(stsd *mp4.StsdBox, rep *m.RepresentationType) error {
